@@ -1260,6 +1260,10 @@ where
                 events.push(GenericEvent::NotifyPacketIdReleased(packet_id));
                 return false; // Remove from store
             }
+            if self.publish_send_max.is_some() {
+                // a retransmitted exchange is incomplete on this connection as well
+                self.publish_send_count = self.publish_send_count.saturating_add(1);
+            }
             events.push(GenericEvent::RequestSendPacket {
                 packet: packet.clone().into(),
                 release_packet_id_if_send_error: None,
@@ -1724,7 +1728,7 @@ where
         // Check receive_maximum for sending (QoS 1 and 2 packets)
         if packet.qos() == Qos::AtLeastOnce || packet.qos() == Qos::ExactlyOnce {
             if let Some(max) = self.publish_send_max {
-                if self.publish_send_count == max {
+                if self.publish_send_count >= max {
                     events.push(GenericEvent::NotifyError(MqttError::ReceiveMaximumExceeded));
                     if let Some(packet_id) = packet_id_opt {
                         if self.pid_man.is_used_id(packet_id) {
